@@ -271,7 +271,8 @@ def programs(draw, **opts):
             hs.append({"cls": cls, "to": draw(st.sampled_from(["addSkip", "addError", "addFailure", "addSuccess", "addExpectedFailure"])),
                        "pos": draw(st.integers(0, 5))})
         prog["handlers"] = hs
-        prog["handlers_when"] = draw(st.sampled_from(["init", "setUp"]))
+        # when the user inserts the handlers: before run(), first thing in setUp, or first thing in the test method
+        prog["handlers_when"] = draw(st.sampled_from(["init", "setUp"] + (["body"] if stage != "setUp_post" else [])))
     elif opts.get("skip_handlers") and g.raises > 0 and draw(st.integers(0, 2)) == 0:
         # a user handler for the skip class in a program that raises several things: it may re-map the
         # skip, it must not let the skip hide a failure or an error raised by another stage
@@ -958,6 +959,8 @@ def build_case(prog, live, result_log=None, runner=None):
             return ret_value(rets.get("setUp"))
 
         def test_program(self):
+            if prog.get("handlers_when") == "body":
+                install_handlers(self)
             run_actions(self, prog["body"])
             return ret_value(rets.get("test"))
 
